@@ -14,8 +14,29 @@ from . import tlc
 
 VERIF = os.path.dirname(os.path.dirname(os.path.abspath(__file__)))
 HARNESS = os.path.join(VERIF, 'harness')
-REPO = '/repo'
+# VERIF_REPO lets a developer point every check at a scratch worktree of the repository (mutation testing
+# without touching /repo).  The registered commands never set it: they build from /repo itself.
+REPO = os.path.abspath(os.environ.get('VERIF_REPO') or '/repo')
+ALT = '' if REPO == '/repo' else '-' + re.sub(r'[^A-Za-z0-9]', '_', REPO)
+BIN = 'bin' + ALT
 GOENV = dict(os.environ, GOFLAGS='-mod=mod', GOPROXY='off', GOSUMDB='off', GOTOOLCHAIN='local')
+
+
+def modfile_args(module_dir):
+    """go build arguments selecting the go.mod that replaces AnnChain by REPO."""
+    if not ALT:
+        return []
+    alt = os.path.join(module_dir, 'go.alt%s.mod' % ALT)
+    src = open(os.path.join(module_dir, 'go.mod')).read().replace('=> /repo', '=> ' + REPO)
+    if not os.path.exists(alt) or open(alt).read() != src:
+        with open(alt, 'w') as f:
+            f.write(src)
+    try:
+        with open(os.path.join(REPO, 'go.sum'), 'rb') as f, open(alt[:-4] + '.sum', 'wb') as g:
+            g.write(f.read())
+    except OSError:
+        pass
+    return ['-modfile=' + alt]
 
 
 class Inconclusive(Exception):
@@ -72,10 +93,10 @@ def ensure_gosum():
 def build_go(ctx, names, tags='verif', module_dir=HARNESS):
     """(Re)build drivers cmd/<name> from /repo's current working tree.  Failure => inconclusive."""
     ensure_gosum()
-    os.makedirs(os.path.join(module_dir, 'bin'), exist_ok=True)
+    os.makedirs(os.path.join(module_dir, BIN), exist_ok=True)
     for n in names:
         t = time.time()
-        p = subprocess.run(['go', 'build', '-tags', tags, '-o', os.path.join(module_dir, 'bin', n), './cmd/' + n],
+        p = subprocess.run(['go', 'build'] + modfile_args(module_dir) + ['-tags', tags, '-o', os.path.join(module_dir, BIN, n), './cmd/' + n],
                            cwd=module_dir, env=GOENV, stdout=subprocess.PIPE, stderr=subprocess.STDOUT, text=True)
         if p.returncode != 0:
             raise Inconclusive('go build %s failed:\n%s' % (n, p.stdout[-3000:]))
@@ -93,7 +114,7 @@ def run_driver(ctx, name, traces, args=(), timeout=1800, module_dir=HARNESS, env
         e = dict(GOENV)
         if env:
             e.update(env)
-        p = subprocess.run([os.path.join(module_dir, 'bin', name), path] + list(args), cwd=module_dir, env=e,
+        p = subprocess.run([os.path.join(module_dir, BIN, name), path] + list(args), cwd=module_dir, env=e,
                            stdout=subprocess.PIPE, stderr=subprocess.PIPE, text=True, timeout=timeout)
     except subprocess.TimeoutExpired:
         raise Inconclusive('driver %s timed out after %ds' % (name, timeout))
